@@ -27,6 +27,7 @@ func init() {
 			{"C08/reassembly", "the framer returns an error only for transport errors or an inconsistent header, not for 'still incomplete'", c08Reassembly},
 			{"C08/header-tests", "readHeader's three length tests are strict (<): a complete 8-byte header, a size of exactly 8 and exactly size bytes are accepted", func(c *Ctx) { headerTests(c, "C08/header-tests") }},
 			{"C08/buffer-ownership", "a packet is assembled and handed on in storage of the call or the connection: no package-level buffer, no pooled buffer that the returned payload still aliases", func(c *Ctx) { packetBuffersPrivate(c, "C08/buffer-ownership") }},
+			{"C08/framer-accepts", "a packet is handed to the packet loop as complete only with readHeader's verdict: type, size and payload of an accepting return of readMessage are readHeader's results", func(c *Ctx) { framerAcceptsThroughHeader(c, "C08/framer-accepts") }},
 			{"C08/read-limit", "the websocket connection carries no message size cap below the largest packet of the format", c08ReadLimit},
 			{"C08/transport-contract", "both ReadPacket implementations return n == len(p) (or 0 with an error)", c08TransportContract},
 			{"C08/transport-source", "a packet read is one whole transport read: one ReadMessage / one Read of the buffered chunked body", func(c *Ctx) {
